@@ -140,6 +140,21 @@ Source(its, p, i, atLineStart) ==
          \o (IF its[i].hard /\ i < Len(its) THEN "\\\n" \o Source(its, p, i + 1, TRUE)
              ELSE Source(its, p, i + 1, FALSE))
 
+(* Mode = "items": a list of two items under the container path; the first item is the single word "x", the second one holds the
+   paragraph and has a WIDER content offset than the first ("9." / "10.", or a wider gap behind the bullet): every item's lines
+   are laid out within the budget left by its own offset.  budget (unused otherwise) selects the variant. *)
+RECURSIVE SourceWith(_, _, _, _, _)
+SourceWith(its, fp, rp, i, atLineStart) ==
+    IF i > Len(its) THEN "\n"
+    ELSE (IF atLineStart THEN (IF i = 1 THEN fp ELSE rp) ELSE " ")
+         \o WordOf(its, i)
+         \o (IF its[i].hard /\ i < Len(its) THEN "\\\n" \o SourceWith(its, fp, rp, i + 1, TRUE)
+             ELSE SourceWith(its, fp, rp, i + 1, FALSE))
+M1(v) == IF v = 1 THEN "9. " ELSE "- "
+M2(v) == IF v = 1 THEN "10. " ELSE "-    "
+Blanks(n) == SubSeq("          ", 1, n)
+ItemsSource(its, p, v) == CatFirst(p) \o M1(v) \o "x\n" \o SourceWith(its, CatRest(p) \o M2(v), CatRest(p) \o Blanks(Len(M2(v))), 1, TRUE)
+
 ---------------------------------------------------------------------------
 Init ==
     IF Mode = "filler"
@@ -149,7 +164,7 @@ Init ==
     ELSE /\ items \in (IF Mode = "defs" THEN DefItems ELSE {s \in DocItems : ~s[Len(s)].hard})
          /\ path \in Paths
          /\ L = 0          \* the harness reflows every exported document for each L of its list
-         /\ budget = 0 /\ pos = 1 /\ cur = << >> /\ lines = << >> /\ phase = "doc"
+         /\ budget \in (IF Mode = "items" THEN {1, 2} ELSE {0}) /\ pos = 1 /\ cur = << >> /\ lines = << >> /\ phase = "doc"
 
 Next == Place
 
@@ -160,6 +175,11 @@ FillerCorrect == (Mode = "filler" /\ phase = "done") =>
 
 ExportFiller == (Mode = "filler" /\ phase = "done") =>
     PrintT(ToJson([items |-> items, budget |-> budget, lines |-> lines]))
+
+ExportItems == (Mode = "items") =>
+    PrintT(ToJson([src |-> ItemsSource(items, path, budget), words |-> [i \in DOMAIN items |-> WordOf(items, i)],
+                   hard |-> [i \in DOMAIN items |-> IF items[i].hard THEN "yes" ELSE "no"],
+                   W |-> SumW(path) + Len(M2(budget)), path |-> path, skip |-> 1]))
 
 ExportDoc == (Mode \in {"docs", "defs"}) =>
     PrintT(ToJson([src |-> Source(items, path, 1, TRUE), words |-> [i \in DOMAIN items |-> WordOf(items, i)],
